@@ -2,6 +2,8 @@
 + callees replaced by their contracts) for a list of instantiations."""
 import fam_pgm
 import fam_md
+import fam_mapped
+import fam_dyn
 
 
 class Unit:
@@ -93,3 +95,29 @@ U('md_advance', fam_md, 'RangeIterator_advance', ['C13', 'C17', 'C16'], inline=[
   assumed=['PGMIndexT_search', 'morton_Decode', 'MD_bigmin'], decls=['md_ghost', 'std_bounds_T'],
   lemmas=['lemma_data_sorted', 'lemma_rank', 'lemma_box_range', 'pgmv_upper_bound_T', 'pgmv_lower_bound_T'], insts=MD_Q, thorough_insts=MD_ALL,
   spec=('md.spec',), assumptions=[MD_NOTE, SEARCH_NOTE], timeout=1200)
+
+
+# ---------------------------------------------------------------------------------------------------
+# MappedPGMIndex queries
+MAPPED_Q = [kinst('uint64_t'), kinst('int32_t')]
+MAPPED_ALL = [kinst(k) for k in ('uint64_t', 'int64_t', 'uint32_t', 'int32_t', 'uint16_t', 'int16_t')]
+MAPPED_LEM = ['lemma_keys_sorted', 'pgmv_lower_bound_K', 'pgmv_upper_bound_K', 'pgmv_binary_search_K']
+for fn, extra in (('lower_bound', []), ('contains', []), ('upper_bound', []), ('count', [])):
+    U('mapped_' + fn, fam_mapped, 'Mapped_' + fn, ['C11', 'C16', 'C17'], inline=['Mapped_begin', 'Mapped_size', 'Mapped_end'],
+      stubs=(['Mapped_lower_bound', 'Mapped_upper_bound'] if fn == 'count' else []), assumed=['Mapped_search'],
+      decls=['mapped_ghost', 'std_bounds_K'], lemmas=MAPPED_LEM, insts=MAPPED_Q, thorough_insts=MAPPED_ALL, spec=('mapped.spec',),
+      frame_ghost_only=True, assumptions=[SEARCH_NOTE], timeout=1200, partition=(16 if fn == 'upper_bound' else 8 if fn == 'count' else 0), mem_gb=12)
+
+
+# ---------------------------------------------------------------------------------------------------
+# DynamicPGMIndex
+DYN_Q = [fam_dyn.dinst('uint32_t', 'uint32_t')]
+DYN_ALL = [fam_dyn.dinst('uint32_t', 'uint32_t'), fam_dyn.dinst('uint64_t', 'uint64_t'), fam_dyn.dinst('int64_t', 'uint32_t')]
+DYN_NOTE = 'DynamicPGMIndex item type ItemA with arithmetic V (tombstone = numeric max); ItemB (flag) is not instantiated'
+U('dyn_lower_bound_bl', fam_dyn, 'Dyn_lower_bound_bl', ['C05', 'C17'], decls=['dyn_ghost'], lemmas=['lemma_sorted'], insts=DYN_Q, thorough_insts=DYN_ALL,
+  spec=('dyn.spec',), assumptions=[DYN_NOTE])
+U('dyn_find', fam_dyn, 'Dyn_find', ['C05', 'C16', 'C17'], inline=['Item_deleted', 'Dyn_level', 'Dyn_pgm', 'Dyn_has_pgm', 'Dyn_end'], stubs=['Dyn_lower_bound_bl'],
+  assumed=['PGMType_search'], decls=['dyn_ghost', 'dyn_rank'], lemmas=['lemma_strict', 'lemma_absent', 'lemma_rank_item', 'lemma_pgm_built'],
+  insts=DYN_Q, thorough_insts=DYN_ALL, spec=('dyn.spec',), frame_ghost_only=True, assumptions=[DYN_NOTE, SEARCH_NOTE, 'at most 32 levels (the class allocates 32 - min_level level slots)'])
+U('dyn_ceil_log2', fam_dyn, 'Dyn_ceil_log2', ['C15', 'C17'], decls=['dyn_ghost'], insts=DYN_Q, spec=('dyn.spec',))
+U('dyn_max_size', fam_dyn, 'Dyn_max_size', ['C15', 'C17'], inline=['Dyn_ceil_log2'], decls=['dyn_ghost'], insts=DYN_Q, spec=('dyn.spec',))
